@@ -546,13 +546,38 @@ def subterms_replace(s):
             yield ("ifiter", s[1], a)
 
 
+def calls_of(s, acc):
+    if s[0] == "call":
+        acc.add(s[1])
+    for x in s[1:]:
+        if isinstance(x, tuple):
+            calls_of(x, acc)
+    return acc
+
+
+def shift_calls(s, i):
+    if s[0] == "call":
+        return ("call", s[1] - 1 if s[1] > i else s[1])
+    return tuple(shift_calls(x, i) if isinstance(x, tuple) else x for x in s)
+
+
+def drop_unused_functions(prog):
+    """candidates with one never-called function (not main) removed"""
+    used = set()
+    for f in prog:
+        calls_of(f, used)
+    for i in range(len(prog) - 1):
+        if i not in used:
+            yield [shift_calls(f, i) for k, f in enumerate(prog) if k != i]
+
+
 def shrink(ctx, r, budget=30):
     cur = r
     progress = True
     while progress and budget > 0:
         progress = False
-        cands = []
         prog = cur["prog"]
+        cands = list(drop_unused_functions(prog))
         for fi in range(len(prog)):
             for a in subterms_replace(prog[fi]):
                 cands.append(prog[:fi] + [a] + prog[fi + 1:])
@@ -571,6 +596,46 @@ def shrink(ctx, r, budget=30):
 
 
 # ------------------------------------------------------------------------------------------------
+
+# ------------------------------------------------------------------------------------------------
+# family outside the Coq mini-language (methods, closures, fibers, for loops, the other failing built-ins):
+# hand-derived expectations (property text + DESIGN Appendix C), every one OUTSIDE the open classes
+PROBES = [
+    ('#[constructor(new)] class A { fn m(self, x) { if x == 1 { throw 11; } return x; } fn w(self) { try { return self.m(1); } '
+     'catch e { print(e); return 5; } } } var a = A.new(); print(a.w()); try { a.m(1); } catch e { print(e); } print(a.m(2));',
+     "11,5,11,2/D"),
+    ('fn mk() { var n = 0; return || { n = n + 1; if n == 2 { throw n; } return n; }; } var c = mk(); '
+     'try { print(c()); print(c()); print(c()); } catch e { print("caught"); print(e); } print(c());', "1,caught,2,3/D"),
+    ('fn f() { var x = 10; try { var y = 20; (|| { throw x + y; })(); } catch e { print(e); print(x); } finally { print(x + 1); } '
+     'return x; } print(f());', "30,10,11,10/D"),
+    ('var fib = Fiber.new(|| { try { Fiber.yield(1); throw 7; } catch e { print(e); Fiber.yield(2); } return 3; }); '
+     'try { print(fib.call()); print(fib.call()); print(fib.call()); } catch e { print("outer"); }', "1,7,2,3/D"),
+    ('fn g(v) { for x in v { try { if x == 2 { continue; } if x == 4 { break; } print(x); } catch e { print("no"); } } throw 9; } '
+     'try { g([1, 2, 3, 4, 5]); } catch e { print(e); }', "1,3,9/D"),
+    ('fn f() { try { [1, 2][5]; } catch e { print(type(e)); print(e.context); } try { nil.foo; } catch e { print(type(e)); } '
+     'try { 1 + "a"; } catch e { print(type(e)); } try { undefined_name; } catch e { print(type(e)); } } f();',
+     "<class IndexError>,Vec index out of bounds.,<class AttributeError>,<class TypeError>,<class NameError>/D"),
+    ('#[constructor(new)] class E { } fn f() { try { throw E.new(); } catch e { print(type(e)); } finally { print("fin"); } } f(); '
+     'throw "bye";', "<class E>,fin/U:bye"),
+    ('fn deep(n) { if n == 0 { throw 42; } try { deep(n - 1); } finally { print(n); } } try { deep(3); } catch e { print(e); }',
+     "1,2,3,42/D"),
+    # an exception does not cross into the fiber that called the failing one: the run ends, naming the value
+    ('var fib = Fiber.new(|| { throw 5; }); try { fib.call(); } catch e { print("crossed"); } print("after");', "/U:5"),
+    ('fn f() { try { return 1; } finally { print("fin"); } } print(f()); try { throw 2; } catch e { print(e); }', "fin,1,2/D"),
+    ('fn f(n) { while n > 0 { try { n = n - 1; if n == 1 { throw n; } } catch e { print("c"); print(e); } } return n; } print(f(3));',
+     "c,1,0/D"),
+]
+
+
+def run_probes(ctx, stats):
+    for prof in ("release", "debug"):
+        recs = yvlib.run_harness(ctx.harness(prof), ["run - " + hx(src) for src, _ in PROBES], case_timeout_ms=10000)
+        for (src, want), rec in zip(PROBES, recs):
+            got = impl_result(rec)
+            if got != want:
+                stats["violations"].append({"src": src, "spec": want, "impl": got, "m": None, "wire": "", "prog": None})
+    stats["probes"] = len(PROBES)
+
 
 WITNESSES = [("wit_early_exit_break", "early_exit_skips_finally"), ("wit_early_exit_return2", "early_exit_skips_finally"),
              ("wit_early_exit_catch", "early_exit_skips_finally"), ("wit_return_no_finally", "return_in_try_catch_no_finally"),
@@ -652,6 +717,7 @@ def run(ctx):
             finish(ctx, stats, [])
         return
     replay_witnesses(ctx, stats)
+    run_probes(ctx, stats)
     progs = systematic()
     nsys = len(progs)
     n_safe, n_wild = (330, 150) if quick else (7000, 3000)
@@ -718,7 +784,7 @@ def finish(ctx, stats, results):
     # violations outside the classes: shrink the first, keep at most 5
     viol = stats["violations"]
     for k, r in enumerate(viol[:5]):
-        small = shrink(ctx, r) if k == 0 else r
+        small = shrink(ctx, r) if (k == 0 and r.get("prog")) else r
         ctx.violation("printed trace / outcome differs from the Spec outside the known classes", input=small["src"],
                       expected=small["spec"], actual=small["impl"], model=small["m"], wire=small["wire"])
     samples = [r["src"] for r in results[-3:]] + [r["src"] for r in results if r["wire"] in stats["nontrivial"]][:2]
